@@ -95,6 +95,9 @@ def plan_names(entry, family, thorough):
                 yield other
     elif family == 'notused':
         yield 'N'
+    elif family == 'renumbered':
+        for v in ('lx', 'hl', 'both'):
+            yield v
     elif family == 'trailing':
         yield 'T'
 
@@ -210,6 +213,34 @@ def notused_doc(entry):
     return d, n
 
 
+def renumbered_doc(entry, what):
+    """the fields a sender numbers himself (LX01 service line numbers, HL01/HL02 hierarchy ids) with values a fresh counter
+    would not give: numbering continued over the whole set instead of restarting, ids offset by 10.  Every segment is
+    still located in its map (the numbers are data); the round trip must bring back the numbers of the document"""
+    d = None
+    for plan in ({'all': True, 'fill_all': True, 'sets': 2}, {'all': True, 'sets': 2}, {'sets': 2}):
+        d = corpus.build_ok(entry, dict(plan))
+        if d is not None:
+            break
+    if d is None:
+        return None, 0
+    d = clone(d)
+    n = 0
+    lx = 2
+    for s in d.segs:
+        if s[0] == 'ST':
+            lx = 2
+        if s[0] == 'LX' and what in ('lx', 'both') and len(s) > 1:
+            lx += 1
+            s[1] = str(lx); n += 1
+        if s[0] == 'HL' and what in ('hl', 'both') and len(s) > 2:
+            s[1] = str(int(s[1]) + 10)
+            if s[2] != '':
+                s[2] = str(int(s[2]) + 10)
+            n += 1
+    return d, n
+
+
 def untrimmed_text(doc, seg_t, ele_t, sub_t):
     """every segment written with all the element separators of its definition and every present composite with
     all its component separators (trailing empties kept)"""
@@ -246,13 +277,15 @@ def make_doc(case):
         elif fam == 'trailing':
             d = base_doc(entry)
             info = len(d.segs) if d is not None else 0
+        elif fam == 'renumbered':
+            d, info = renumbered_doc(entry, case['plan'])
         else:
             d, info = notused_doc(entry)
     except gen.Ungeneratable:
         return None, 'not generatable', 0
     if d is None:
         return None, 'no base document', 0
-    if fam in ('payload', 'notused') and info == 0:
+    if fam in ('payload', 'notused', 'renumbered') and info == 0:
         return None, 'no target element in the base document', 0
     if gen.selfcheck(d):
         return None, 'reference parser does not reproduce the generating nodes', 0
@@ -604,6 +637,8 @@ def run(R):
         for dl in range(len(DELIMS)):
             shards.append((f, 'payload', dl, 0, 1, R.thorough))
             shards.append((f, 'notused', dl, 0, 1, R.thorough))
+            if dl == 0:
+                shards.append((f, 'renumbered', dl, 0, 1, R.thorough))
             shards.append((f, 'trailing', dl, 0, 1, R.thorough))
         if R.thorough:
             n = 48 if f.startswith('837') else (12 if big else 2)
